@@ -30,6 +30,7 @@ type gor struct {
 	panicOrigin string
 	pos         token.Pos
 	fnName      string
+	waitIdle    bool // parked by sym.LetOthersRun until nobody else can run
 	// delivery slot for channel operations completed by the peer
 	recvVal value
 	recvOk  bool
@@ -148,6 +149,17 @@ func (s *scheduler) schedule(self *gor) {
 		}
 	}
 	if len(runnable) == 0 {
+		// a goroutine that let the others run first (sym.LetOthersRun) continues now
+		for _, g := range s.all {
+			if g.state == gBlocked && g.waitIdle {
+				g.state = gRunnable
+				g.waitIdle = false
+				runnable = append(runnable, g)
+				break
+			}
+		}
+	}
+	if len(runnable) == 0 {
 		// nobody can run
 		blocked := 0
 		desc := ""
@@ -216,6 +228,28 @@ func (s *scheduler) block(on string) {
 	s.trace("g%d blocks on %s%s", g.id, on, s.i.whereShort())
 	s.schedule(g)
 	s.trace("g%d resumes", g.id)
+}
+
+// letOthersRun parks the current goroutine until every other goroutine has blocked or
+// finished (a deterministic schedule: "this call stays in flight while everybody else makes
+// as much progress as they can").
+func (s *scheduler) letOthersRun() {
+	g := s.cur
+	others := false
+	for _, o := range s.all {
+		if o != g && o.state == gRunnable {
+			others = true
+		}
+	}
+	if !others {
+		return
+	}
+	g.state = gBlocked
+	g.blockOn = "letting the others run"
+	g.waitIdle = true
+	s.trace("g%d lets the others run%s", g.id, s.i.whereShort())
+	s.schedule(g)
+	g.waitIdle = false
 }
 
 // yield is a scheduling point at a visible operation (explore mode only).
